@@ -741,6 +741,23 @@ def std_summaries():
     P[r'std::io::Error::kind'] = lambda se, env, pc, e: one(env, (se.deref(env, e) if isinstance(e, Ref) else e).get('kind', Opaque('kind')) if isinstance((se.deref(env, e) if isinstance(e, Ref) else e), dict) else Opaque('kind'))
     P[r'<.* as ToString>::to_string'] = lambda se, env, pc, e: one(env, {'str': '<to_string>'})
     P[r'std::io::Error::new'] = lambda se, env, pc, kind, msg: one(env, {'kind': kind, '__ty': 'io::Error'})
+    _EK = ['NotFound', 'PermissionDenied', 'ConnectionRefused', 'ConnectionReset', 'HostUnreachable', 'NetworkUnreachable', 'ConnectionAborted', 'NotConnected', 'AddrInUse', 'AddrNotAvailable',
+           'NetworkDown', 'BrokenPipe', 'AlreadyExists', 'WouldBlock', 'NotADirectory', 'IsADirectory', 'DirectoryNotEmpty', 'ReadOnlyFilesystem', 'FilesystemLoop', 'StaleNetworkFileHandle',
+           'InvalidInput', 'InvalidData', 'TimedOut', 'WriteZero', 'StorageFull', 'NotSeekable', 'QuotaExceeded', 'FileTooLarge', 'ResourceBusy', 'ExecutableFileBusy', 'Deadlock', 'CrossesDevices',
+           'TooManyLinks', 'InvalidFilename', 'ArgumentListTooLong', 'Interrupted', 'Unsupported', 'UnexpectedEof', 'OutOfMemory', 'InProgress', 'Other', 'Uncategorized']
+    def _ek(se, env, x):
+        n = 0
+        while isinstance(x, Ref) and n < 8: x = se.deref(env, x); n += 1
+        if isinstance(x, Enum): return BitVecVal(_EK.index(x.tag), 8) if x.tag in _EK else None
+        if isinstance(x, str): return BitVecVal(_EK.index(x), 8) if x in _EK else None
+        return x if is_bv(x) else None
+    def errkind_eq(se, env, pc, a, b):
+        x, y = _ek(se, env, a), _ek(se, env, b)
+        if x is None or y is None: raise Inconclusive('comparison of error kinds %r %r' % (a, b))
+        if x.size() != y.size(): raise Inconclusive('error kinds of different widths')
+        return one(env, x == y)
+    P[r'<(?:std::io::)?ErrorKind as PartialEq>::eq'] = errkind_eq
+    P[r'<(?:std::io::)?ErrorKind as PartialEq>::ne'] = lambda se, env, pc, a, b: one(env, Not(errkind_eq(se, env, pc, a, b)[0][1]))
     def _full(se, env, v):
         n = 0
         while isinstance(v, Ref) and n < 10: v = se.deref(env, v); n += 1
